@@ -2336,7 +2336,12 @@ def fast_nonMarkov_SIR(G, trans_time_fxn=None,
         initial_infecteds=[initial_infecteds]
     #else it is assumed to be a list of nodes.
         
-    times, S, I, R= ([tmin], [G.order()], [0], [0])  
+    if initial_recovereds is None:
+        initial_number_recovered = 0
+    else:
+        initial_number_recovered = len(initial_recovereds)
+    times, S, I, R= ([tmin], [G.order()-initial_number_recovered], [0], 
+                                [initial_number_recovered])  
     transmissions = []
     
     for u in initial_infecteds:
